@@ -44,6 +44,12 @@ pub fn generate_layout(run_seed: u64, mut w: Rng, _f: Rng) -> Scenario {
   let mut providers: Vec<(ModName, Vec<String>)> = Vec::new();
   for i in 0..n_providers {
     let name: ModName = match w.below(5) {
+      // a provider that cannot be named in an import statement: nothing may be offered from it
+      0 | 1 if i > 0 && w.chance(1, 3) => match w.below(3) {
+        0 => vec![format!("snake_case_provider_{i}")],
+        1 => vec![format!("My Provider {i}")],
+        _ => vec!["val".into(), format!("Provider{i}")],
+      },
       0 => vec![format!("P{i}")],
       1 => vec!["lib".into(), format!("Provider{i}")],
       2 => vec!["DirectoryWithAVeryLongName".into(), format!("Provider{i}")],
